@@ -251,13 +251,31 @@ def one_pipeline(ctx, hist, st, req, fs, selftest, naming="plain"):
         return False
     bad = os.path.join(ctx.tmp, "c01.bad.ndjson")
     cut = idx[len(idx) // 2]
+    # (a) an Install event whose table is not the one the specification computes (one instance missing)
+    ev = json.loads(lines[cut])
+    ev["table"] = ev["table"][1:]
     with open(bad, "w") as fh:
-        fh.write("\n".join(lines[:cut] + lines[cut + 1:]) + "\n")
+        fh.write("\n".join(lines[:cut] + [json.dumps(ev, separators=(",", ":"))] + lines[cut + 1:]) + "\n")
     r2 = validate_trace(ctx, bad, "self-test trace")
     if r2 is None:
         return False
     if r2.ok:
-        ctx.inconclusive("binding self-test: a trace with one Install event removed was accepted")
+        ctx.inconclusive("binding self-test: a trace with one falsified Install event (an instance missing from the installed table) was accepted")
+        return True
+    # (b) Install events removed: an intermediate install of a step with several installs is unobservable at the
+    # next quiescent point, so several candidates are tried and one rejection is required
+    rejected = 0
+    for cut in [idx[len(idx) // 2], idx[len(idx) // 3], idx[(2 * len(idx)) // 3], idx[len(idx) // 5], idx[-1]]:
+        with open(bad, "w") as fh:
+            fh.write("\n".join(lines[:cut] + lines[cut + 1:]) + "\n")
+        r3 = validate_trace(ctx, bad, "self-test trace")
+        if r3 is None:
+            return False
+        if not r3.ok:
+            rejected += 1
+            break
+    if rejected == 0:
+        ctx.inconclusive("binding self-test: five traces with one Install event removed each were all accepted")
     return True
 
 
